@@ -768,6 +768,14 @@ theorem routed_to_shard0_counterexample :
       (.single 2 .get)).2 = .one (.bulk [118]) ∧
     cmdShard twoRoutes true (.single 2 .get : Cmd Str.sig) = 1 := by decide
 
+/-- a script with ZERO keys that writes key 2 (home: shard 1) runs on shard 0 (`execKeyless`): the
+    key is planted there and a later GET (routed to its home) does not see it -/
+theorem undeclared_key_counterexample :
+    (execN Str.exec twoRoutes true
+        (execKeyless Str.exec (Shards.init SVal 2) (.single 2 (.set [117]))).1 (.single 2 .get)).2 = .one .nil ∧
+    (Str.exec.exec (Str.exec.exec ([] : Str.St) (.single 2 (.set [117]))).1 (.single 2 .get)).2 = .one (.bulk [117]) := by
+  decide
+
 end counterexamples
 
 section scriptcex
